@@ -24,6 +24,16 @@ Proof. exact roundtrip_abs. Qed.
 Theorem C11_offset_bounds : forall r dt o, offset_rel r dt = Some o -> 0 <= o <= r_len r.
 Proof. exact offset_bounds. Qed.
 
+(* offset_at is the NEAREST sample and refuses exactly when that sample lies outside [0, len]; every time more than half a sample
+   before the start or after the end is refused *)
+Theorem C11_offset_nearest : forall r dt o, offset_rel r dt = Some o ->
+  (inject_Z o - (1 # 2) <= dt * r_rate r <= inject_Z o + (1 # 2))%Q /\ 0 <= o <= r_len r.
+Proof. exact offset_nearest. Qed.
+Theorem C11_refused_before_start : forall r dt, (dt * r_rate r < - (1 # 2))%Q -> offset_rel r dt = None.
+Proof. exact offset_refused_before. Qed.
+Theorem C11_refused_after_end : forall r dt, (inject_Z (r_len r) + (1 # 2) < dt * r_rate r)%Q -> offset_rel r dt = None.
+Proof. exact offset_refused_after. Qed.
+
 (* statelessness: every read opens its own handle on the immutable file (open; seek; read; close).  For EVERY interleaving of
    the atomic steps of any number of concurrent reads, each read that runs to completion returns exactly what it returns alone:
    the file's samples [pos, pos + cnt) - no dependence on history, order or the other reads *)
@@ -54,3 +64,5 @@ Print Assumptions C11_read.
 Print Assumptions C11_roundtrip_absolute.
 Print Assumptions C11_interleaving.
 Print Assumptions C11_adjacent.
+Print Assumptions C11_offset_nearest.
+Print Assumptions C11_refused_before_start.
